@@ -190,6 +190,22 @@ ROUND8 = {
 }
 
 
+ROUND9 = {
+    'C01': 'Observer removal after close; a checkpointing listener with an unserialisable output.',
+    'C08': 'A chain class with its own bundle key for the outline position.',
+    'C10': 'Awaited children that are killed while they wait (the earlier kill cases were vacuous); the future handed to the barrier must resolve when the child ends.',
+    'C12': 'An announced output is among process.outputs when the listeners are told.',
+    'C13': 'A bare UnsuccessfulResult().',
+    'C14': 'A never-saved pid that is too long for a file name.',
+    'C15': 'include / exclude both given with one of them empty; arguments left out instead of passed as None; a second expose into a copied namespace with mixed namespace classes.',
+    'C16': 'A work chain under remote control; both subscriptions are given back at termination.',
+    'C17': 'A globally installed loader with a launcher built without loader=.',
+    'C18': 'call_soon with positional and keyword arguments.',
+    'C19': 'SavableFuture subclasses, falsy exceptions, a dict-backed loader asked for an unknown identifier.',
+    'C20': 'no_reply deliveries through the coroutine controller (confirmed and failed); broadcast intents without a text.',
+}
+
+
 def main():
     checks = []
     for pid, (level, technique, text, note, ref) in sorted(CHECKS.items()):
@@ -197,6 +213,8 @@ def main():
             text = text.rstrip() + ' Added after round 7 of the seeded changes: ' + ROUND7[pid]
         if pid in ROUND8:
             text = text.rstrip() + ' Added after round 8: ' + ROUND8[pid]
+        if pid in ROUND9:
+            text = text.rstrip() + ' Added after round 9: ' + ROUND9[pid]
         checks.append(
             {
                 'property_id': pid,
